@@ -225,33 +225,32 @@ theorem wclose_within (w : Writer) (hw : w.Ok) :
   repeat' ac_step
   all_goals ac_leaf
 
+theorem wcommitCheck_within (w : Writer) (hw : w.Ok) :
+    AllCalls (Call.within [w.cache]) (wcommitCheck cfg w) := by
+  unfold wcommitCheck
+  simp only [bind_eq, pure_eq]
+  apply AllCallsR.bind (wclose_within cfg w hw)
+  intro r _
+  split
+  · trivial
+  · split <;> trivial
+
+theorem wcommitIndex_within (w : Writer) (wsri recorded : Integrity) :
+    AllCalls (Call.within [w.cache]) (wcommitIndex cfg w wsri recorded) := by
+  unfold wcommitIndex
+  split
+  · exact insert_within cfg _ _ _
+  · trivial
+
 theorem wcommit_within (w : Writer) (hw : w.Ok) :
     AllCalls (Call.within [w.cache]) (wcommit cfg w) := by
   unfold wcommit
   simp only [bind_eq, pure_eq]
-  apply AllCallsR.bind (wclose_within cfg w hw)
+  apply AllCallsR.bind (wcommitCheck_within cfg w hw)
   intro r _
-  have hidx : ∀ wsri recorded, AllCalls (Call.within [w.cache]) (wcommit.index cfg w wsri recorded) := by
-    intro wsri recorded
-    unfold wcommit.index
-    split
-    · exact insert_within cfg _ _ _
-    · trivial
-  have hfin : ∀ wsri recorded, AllCalls (Call.within [w.cache]) (wcommit.finishCommit cfg w wsri recorded) := by
-    intro wsri recorded
-    unfold wcommit.finishCommit
-    split
-    · split
-      · trivial
-      · exact hidx _ _
-    · exact hidx _ _
   split
   · trivial
-  · split
-    · split
-      · trivial
-      · exact hfin _ _
-    · exact hfin _ _
+  · exact wcommitIndex_within cfg w _ _
 
 theorem write_within (fl : Flavour) (cache : Path) (algo : Algo) (key data : Bytes) :
     AllCalls (Call.within [cache]) (write cfg fl cache algo key data) := by
